@@ -152,7 +152,7 @@ def main():
     g = json.dumps(v["scn"]["subs"], sort_keys=True)
     graphs.setdefault(g, v)
   keys = sorted(graphs)
-  chosen = common.sample_keep(keys, 600 if args.tier == "quick" else 10**9, args.seed)
+  chosen = common.sample_keep(keys, 600 if args.tier == "quick" else 30000, args.seed)
   noq = rgen.NOQ
   items = []
   for g in chosen:
@@ -199,7 +199,7 @@ def main():
               "between supported ones, intermediate tensors exported) enumerated by TLC up to the bound + seeded random 3-8 op graphs; "
               "each run with the 5 shipped JSON recipes loaded unchanged and real calibrate() on random data",
       "samples": [dict(scenario=items[i]["scn"]["subs"], result=results[i].get("res")) for i in (0, len(items) - 1)],
-      "impl_wall_s": round(time.time() - t0, 1), "exhaustive": args.tier == "thorough",
+      "impl_wall_s": round(time.time() - t0, 1), "exhaustive": len(chosen) == len(keys),
   })
   chk.assumptions += ["design-level raise analysis uses generic statistics (over-approximates raises that depend on coinciding ranges); "
                       "the verdict comes from the observed return/raise of the real API with real calibration"]
